@@ -56,6 +56,9 @@ FIXED = [
     ("ia,ja->ij", [(3, 2), (2, 2)]),
     ("a,b,c->abc", [(2,), (1,), (3,)]),
     ("iab,ibc,icd,ide->iae", [(2, 2, 2), (2, 2, 2), (2, 2, 2), (2, 2, 2)]),
+    # the chain product of A(1-) -> R(3/2-) D(1/2-), R -> B(1-) C(1/2+): a pairwise product that needs 6 alternating broadcast blocks
+    # (TensorFlow's Mul kernel supports 5: the routine has to hand this pair to tf.einsum)
+    ("...aec,...ebd,...,...bB,...dD->...aBcD", [(2, 3, 2, 2), (2, 2, 3, 2), (2,), (2, 3, 3), (2, 2, 2)]),
 ]
 
 
@@ -109,8 +112,10 @@ def _run(ctx, family, tag):
 
     n_ok = n_declined = 0
     bad = None
+    over = None
     for k, (expr, shapes) in enumerate(family):
         ops = [shim_tf.sym_tensor("t%d" % i, s) for i, s in enumerate(shapes)]
+        del shim_tf.BROADCAST_LIMIT_EXCEEDED[:]
         try:
             with warnings.catch_warnings():
                 warnings.simplefilter("ignore")
@@ -119,6 +124,8 @@ def _run(ctx, family, tag):
             n_declined += 1
             ctx.count(key=("declined", expr, tuple(shapes)), sample={"expr": expr, "shapes": shapes, "declined": repr(ex)[:80]})
             continue
+        if shim_tf.BROADCAST_LIMIT_EXCEEDED and over is None:
+            over = {"expr": expr, "shapes": shapes, "products (shape, shape, blocks)": [list(map(str, x)) for x in shim_tf.BROADCAST_LIMIT_EXCEEDED[:3]]}
         want = reference_contraction(_explicit(expr, shapes), [o.a for o in ops])
         ga = got.a
         ok = ga.shape == want.shape
@@ -139,6 +146,10 @@ def _run(ctx, family, tag):
     ctx.check(tag + "/equals_reference", bad is None and n_ok > 0,
               clause="einsum(expr, *t) == sum_{summed} prod operands, as polynomials in all tensor entries, for each enumerated (expression, shape) "
                      "(%d checked, %d declined by raising)" % (n_ok, n_declined), detail=str(bad), witness=bad, concrete_input=True)
+    ctx.check(tag + "/within_tf_broadcast_limit", over is None,
+              clause="when einsum returns, it has not formed an element-wise product of operands that need more than 5 collapsed broadcast blocks "
+                     "(TensorFlow's kernel limit: eager mode raises and callers fall back, a tf.function fails only when the graph runs)",
+              detail=str(over), witness=over, concrete_input=True)
     ctx.check(tag + "/not_all_declined", n_ok >= max(1, len(family) // 2), clause="the routine accepts at least half of the enumerated expressions (non-vacuity)",
               detail="accepted %d of %d" % (n_ok, len(family)))
 
